@@ -158,6 +158,8 @@ package hybridbuffer
 //@      && f.metrics.queuedChunksTransient != nil && f.metrics.queuedChunksPersistent != nil && f.inputChannel != f.outputChannel
 // lastsentlen: ghost — length of the data of the chunk most recently offered to the output channel
 //@ ghost var lastsentlen int
+// lasthandback: ghost - the ID of the chunk the last loadToOutput call was given
+//@ ghost var lasthandback string
 
 // a loaded chunk is forwarded, or counted (dropped when it cannot be loaded, corrupt when it is empty) — exactly one of
 // these; "zero-length files are treated as corrupt and removed instead of forwarded"; a failed or corrupt load does not stop
@@ -167,6 +169,8 @@ package hybridbuffer
 //@   modifies everything
 //@   preserves outputFeeder.*, chunkManager.*, chunkOperator.*, chunkManagerMetrics.*, chunkOperatorMetrics.*, bufferMetrics.*
 //@   ghostset lastsentlen := len(cur(chunk).Data)
+//@   ghostset lasthandback := chunk.ID
+//@   ensures  lasthandback === chunk.ID
 //@   ensures[resolved-exactly-once] result ==> resolved + nsent(feeder.outputChannel) == old(resolved + nsent(feeder.outputChannel)) + 1
 //@   ensures[handed-back-when-closing] !result ==> resolved == old(resolved) && nsent(feeder.outputChannel) == old(nsent(feeder.outputChannel))
 //@   ensures[never-forward-an-empty-chunk] nsent(feeder.outputChannel) != old(nsent(feeder.outputChannel)) ==> lastsentlen > 0
@@ -197,7 +201,7 @@ package hybridbuffer
 //@   ensures[balance] bal(&feeder.chunkMan) == old(bal(&feeder.chunkMan))
 //@   ensures[every-chunk-taken-is-forwarded-saved-or-counted] resolved + nsent(feeder.outputChannel) - nrecv(feeder.inputChannel) - nrecv(feeder.outputChannel)
 //@        == old(resolved + nsent(feeder.outputChannel) - nrecv(feeder.inputChannel) - nrecv(feeder.outputChannel))
-//@     || (len(cur(lastInputChunk).ID) == 0 && resolved + nsent(feeder.outputChannel) - nrecv(feeder.inputChannel) - nrecv(feeder.outputChannel)
+//@     || (len(lasthandback) == 0 && resolved + nsent(feeder.outputChannel) - nrecv(feeder.inputChannel) - nrecv(feeder.outputChannel)
 //@        == old(resolved + nsent(feeder.outputChannel) - nrecv(feeder.inputChannel) - nrecv(feeder.outputChannel)) - 1)
 //@   loop 1: invariant validfeeder(feeder) && feeder.logger != nil && feeder.metrics.queuedChunksTransient != nil && feeder.metrics.queuedChunksPersistent != nil && feeder.outputClosed != nil && feeder.stopped != nil && feeder.consumerCounter != nil
 //@   loop 1: invariant notmanmetric(ref(feeder.metrics.queuedChunksTransient), &feeder.chunkMan) && notmanmetric(ref(feeder.metrics.queuedChunksPersistent), &feeder.chunkMan)
